@@ -4,19 +4,22 @@
 (* key. Each event is one add/update call with what the counter then reports:  *)
 (* total, number of tracked keys, common/uncommon sums and reported counts     *)
 (* (rep: <<key, count>> pairs; all keys when full = TRUE, else a few).         *)
+(* The size bound |tracked| <= 2/threshold is judged apart: an event that only *)
+(* exceeds it is printed as a NOTE (with whether the counter holds exactly what *)
+(* the lossy-counting mechanism mst holds) and the run is validated to its end. *)
 EXTENDS Lossy, TLC, Json, IOUtils
 Traces == JsonDeserialize(IOEnv.TRACE_FILE)
-VARIABLES tid, l, truec
-vars == <<tid, l, truec>>
+VARIABLES tid, l, truec, mst
+vars == <<tid, l, truec, mst>>
 
 RECURSIVE Bump(_, _)
 Bump(tc, ks) == IF ks = <<>> THEN tc ELSE Bump([tc EXCEPT ![Head(ks)] = @ + 1], Tail(ks))
 
-Good(tc, ev, tp, tq) ==
+(* every clause of the promise except the size bound *)
+GoodCore(tc, ev, tp, tq) ==
   LET total == SumSeq(tc) IN
     /\ ev.total = total
     /\ ev.common + ev.uncommon = total
-    /\ ev.len * tp <= 2 * tq
     /\ ev.views_ok
     /\ \A i \in 1..Len(ev.rep) :
          LET k == ev.rep[i][1]  c == ev.rep[i][2] IN
@@ -24,15 +27,26 @@ Good(tc, ev, tp, tq) ==
     /\ ev.full => /\ Len(ev.rep) = Len(tc)
                   /\ ev.common = SumSeq([i \in 1..Len(ev.rep) |-> ev.rep[i][2]])
                   /\ ev.len = Cardinality({i \in 1..Len(ev.rep) : ev.rep[i][2] > 0})
+SizeBound(ev, tp, tq) == ev.len * tp <= 2 * tq
+(* does the counter report exactly what the lossy-counting mechanism of Lossy.tla (2) holds for this stream? *)
+AsMechanism(m, ev) == /\ m.total = ev.total                 \* (the mechanism is carried along only for traces marked mech)
+                      /\ ev.len = Tracked(m.cnt)
+                      /\ \A i \in 1..Len(ev.rep) : ev.rep[i][2] = m.cnt[ev.rep[i][1]]
 
-Init == tid \in 1..Len(Traces) /\ l = 1 /\ truec = [k \in 1..Traces[tid].n |-> 0]
+Init == /\ tid \in 1..Len(Traces) /\ l = 1 /\ truec = [k \in 1..Traces[tid].n |-> 0]
+        /\ mst = Init0(Traces[tid].n, Traces[tid].tp, Traces[tid].tq)
 Step == /\ l >= 1 /\ l <= Len(Traces[tid].ev)
         /\ LET ev == Traces[tid].ev[l]
-               tc == Bump(truec, Stream(ev.op)) IN
-           IF Good(tc, ev, Traces[tid].tp, Traces[tid].tq)
-           THEN truec' = tc /\ l' = l + 1 /\ tid' = tid
+               tc == Bump(truec, Stream(ev.op))
+               m == IF Traces[tid].mech THEN Apply(mst, ev.op) ELSE mst IN
+           IF GoodCore(tc, ev, Traces[tid].tp, Traces[tid].tq)
+           THEN /\ truec' = tc /\ l' = l + 1 /\ tid' = tid /\ mst' = m
+                (* a run that only exceeds the size bound is noted and validated to its end *)
+                /\ (~SizeBound(ev, Traces[tid].tp, Traces[tid].tq) /\ (l = 1 \/ SizeBound(Traces[tid].ev[l - 1], Traces[tid].tp, Traces[tid].tq) \/ ~AsMechanism(m, ev)))
+                      => PrintT(<<"NOTE", ToJson([tid |-> tid, l |-> l, what |-> "tracked-keys-exceed-2-over-threshold", len |-> ev.len,
+                                                  mechanism_len |-> Tracked(m.cnt), as_mechanism |-> AsMechanism(m, ev)])>>)
            ELSE /\ PrintT(<<"REJECT", ToJson([tid |-> tid, l |-> l, st |-> [truec |-> tc, slack |-> Slack(SumSeq(tc), Traces[tid].tp, Traces[tid].tq)], exp |-> <<>>])>>)
-                /\ l' = 0 /\ UNCHANGED <<tid, truec>>
+                /\ l' = 0 /\ UNCHANGED <<tid, truec, mst>>
 Spec == Init /\ [][Step]_vars
 Accept == (l = Len(Traces[tid].ev) + 1) => PrintT(<<"ACCEPT", tid>>)
 =============================================================================
